@@ -219,6 +219,27 @@ def check_pasted(ctx, ftext, rtext, fd, rd):
                  "implementation": {"fixed": fixed, "symbols": syms[:12]}, "oracle": {"fixed": want_fixed, "symbols": sorted(ref[0])[:12]}})
 
 
+# hand-written twins: the same program in fixed and in free form, line by line
+DIRECTED_TWINS = [
+    # statements joined by `;` whose second part starts with a letter that flags a comment in column 1 (c, d), a labelled DO,
+    # comment lines of every kind between the statements
+    ("      subroutine tw(n, total)\n      integer n, i;double precision total\nC     a remark\n      total = 0;do 10 i = 1, n\n      total = total + i;continue\n"
+     "   10 continue\n* another\n      integer k;character(len=3) s;complex z\n      end\n",
+     "subroutine tw(n, total)\n  integer n, i;double precision total\n  ! a remark\n  total = 0;do 10 i = 1, n\n  total = total + i;continue\n"
+     "10 continue\n  ! another\n  integer k;character(len=3) s;complex z\nend\n"),
+]
+
+
+def check_directed_twins(ctx):
+    for ftext, rtext in DIRECTED_TWINS:
+        fd = c13.dump(ftext, ".f", hover_words=("total", "s", "z", "k"))
+        rd = c13.dump(rtext, ".f90", hover_words=("total", "s", "z", "k"))
+        ctx.count(("directed-twin", ftext), True)
+        if fd is None or rd is None or fd != rd:
+            ctx.report("C14:twin", "a hand-written fixed-form program is understood differently from its free-form twin",
+                       {"kind": "counterexample", "input": {"fixed": ftext, "free": rtext}, "implementation": fd, "oracle": rd})
+
+
 def detection_inputs(ctx, n):
     r = ctx.rng
     out = []
@@ -399,6 +420,7 @@ def run(ctx):
     check_gather(ctx, 300 if q else 6000)
     check_detection(ctx, 1500 if q else 30000)
     check_pairs(ctx, 40 if q else 1000)
+    check_directed_twins(ctx)
 
 
 def replay(ctx, path):
